@@ -566,7 +566,7 @@ class StmtMixin(object):
             iterables = [a for a in it.terms()]
             special = [a for a in iterables if isinstance(a, (GenObj, ListObj, TupleT, Obj))
                        or self.unwrap_enumerate(a) is not None
-                       or (isinstance(a, Call) and a.fn.startswith('itertools.chain'))]
+                       or (isinstance(a, Call) and a.fn.startswith(('itertools.chain', 'itertools.starmap')))]
             if special:
                 start = self.cur
                 end = self.join_node(node, 'end-iter-alternatives')
@@ -601,6 +601,24 @@ class StmtMixin(object):
             def inner_iter(part):
                 self.iterate(part, per_item, names, node)
             return self.iterate(it.args[0], inner_iter, names, node)
+        if isinstance(it, Call) and it.fn == 'itertools.starmap' and len(it.args) == 2:
+            fn = it.args[0]
+
+            def per_star(val):
+                while isinstance(val, Phi) and len(val.alts) == 1:
+                    val = val.alts[0][0]
+                if isinstance(val, TupleT):
+                    argv = list(val.items)
+                elif isinstance(val, Phi) and all(isinstance(a, TupleT) for a in val.terms()) \
+                        and len(set(len(a.items) for a in val.terms())) == 1:
+                    ts = list(val.terms())
+                    argv = [join(*[a.items[i] for a in ts]) for i in range(len(ts[0].items))]
+                else:
+                    self.diag('unsupported-expr', 'starmap over elements of unknown shape',
+                              node)
+                    argv = [Elem(val)]
+                per_item(self.call(fn, argv, {}, node))
+            return self.iterate(it.args[1], per_star, names, node)
         inner = self.unwrap_enumerate(it)
         if inner is not None:
             src, start = inner
@@ -751,6 +769,24 @@ class StmtMixin(object):
             self.diag('unsupported-stmt', 'context manager %s never yields (%d)'
                       % (gen.func.qualname, yielded[0]), node)
 
+    def tagged_alternatives(self, val):
+        """[(tuple, origin site)] when ``val`` is a choice between tuples that start with
+        distinct constant tags, each handed over by its own site; else None."""
+        if not isinstance(val, Phi) or len(val.alts) < 2:
+            return None
+        out, tags, sites = [], set(), set()
+        for a, o in val.alts:
+            if o is None or not isinstance(a, TupleT) or not a.items or \
+                    not isinstance(a.items[0], Const) or \
+                    not isinstance(a.items[0].value, str):
+                return None
+            tags.add(a.items[0].value)
+            sites.add(o)
+            out.append((a, o))
+        if len(tags) != len(out) or len(sites) != len(out):
+            return None
+        return out
+
     def weave(self, gen, per_item, names, node):
         """Attach the body of generator ``gen`` to the consuming loop."""
         object.__setattr__(gen, 'consumed', gen.consumed + 1)
@@ -775,10 +811,13 @@ class StmtMixin(object):
         self.tag_else(rec)
         builder = self
 
+        ynodes = []
+
         def on_yield(val, ynode):
             y = builder.emit('yield', ynode, {'value': val, 'gen': gen.func.qualname})
             if y is None:
                 return NONE
+            ynodes.append(y)
             gctx = (builder.frame, builder.handlers, builder.loops)
             resume = builder.join_node(ynode, 'resume-after-yield')
             r = LoopRec(exit_, resume)
@@ -788,9 +827,28 @@ class StmtMixin(object):
             builder.handlers = list(chandlers)
             builder.loops = cloops + [r]
             try:
-                per_item(val)
-                if builder.cur is not None:
-                    builder.goto(resume)
+                tagged = builder.tagged_alternatives(val)
+                if tagged:
+                    # a tagged union ('kind', payload) handed over by different sites:
+                    # the consumer's body once per alternative, tied to the site
+                    start = builder.cur
+                    snap = dict(cframe.env.vars)
+                    envs = []
+                    group = tuple(sorted(o for a, o in tagged))
+                    for a, o in tagged:
+                        builder.cur = start
+                        cframe.env.vars = dict(snap)
+                        builder.emit('dispatch', ynode, {'target': a, 'alt_site': o,
+                                                         'group': group})
+                        per_item(a)
+                        if builder.cur is not None:
+                            envs.append(cframe.env.vars)
+                            builder.goto(resume)
+                    cframe.env.vars = builder.merge_envs(envs) if envs else snap
+                else:
+                    per_item(val)
+                    if builder.cur is not None:
+                        builder.goto(resume)
             finally:
                 builder.frame, builder.handlers, builder.loops = gctx
             builder.land(resume)
@@ -820,6 +878,9 @@ class StmtMixin(object):
         self.land(gen_end)
         if self.cur is not None:
             self.goto(exit_, 'exhausted')
-        self.frame.env.vars = self.merge_envs([pre, self.frame.env.vars] + rec.break_envs)
+        # (a generator that cannot finish without having yielded: the loop body ran)
+        ran = bool(ynodes) and gen_end not in self.g.reachable_from([head], blocked=ynodes)
+        self.frame.env.vars = self.merge_envs(([] if ran else [pre]) +
+                                              [self.frame.env.vars] + rec.break_envs)
         self.close_loopvars(names, head)
         self.land(exit_)
